@@ -359,8 +359,12 @@ func c02LeafForms() []leafForm {
 		return &Leaf{Kind: "var", Operand: []Tok{A(at.New(ClsIdent, "op", ""))}, Not: true}
 	}})
 	for _, op := range []string{"==", "!=", "<", "<=", ">", ">="} {
-		for _, vk := range []string{"num", "ident", "multi", "hexvar"} {
+		for _, vk := range []string{"num", "ident", "multi", "hexvar", "kwTRUE", "kwFALSE", "kwtrue", "kwfalse"} {
 			for _, strict := range []bool{false, true} {
+				if strings.HasPrefix(vk, "kw") && (strict || len(op) != 2 || op[1] != '=' || op[0] == '<' || op[0] == '>') {
+					// the boolean keywords as a var's comparison value: only == and !=
+					continue
+				}
 				op, vk, strict := op, vk, strict
 				nm := fmt.Sprintf("var%s%s", op, vk)
 				if strict {
@@ -377,6 +381,8 @@ func c02LeafForms() []leafForm {
 						lf.Value = []Tok{L("BASE_VALUE"), L("+"), L("1")}
 					case "hexvar":
 						lf.Value = []Tok{L("0x4001")}
+					default:
+						lf.Value = []Tok{L(strings.TrimPrefix(vk, "kw"))}
 					}
 					return lf
 				}})
